@@ -179,12 +179,24 @@ def check_exclusive(chk, inp, m, schema, ci, trk):
                     chk.fail("unselected-member-in-json", inp, "%s keys=%r" % (f.name, keys))
 
 
+def check_retired(chk, inp, retired, schema, ci):
+    """the object a copy was taken from is a message like any other: later operations on the COPY
+    must leave its selection, its exclusivity and its bytes' members as they were"""
+    for orig, sel, step in retired:
+        t = Tracker(schema, ci)
+        t.sel = dict(sel)
+        sub = type(chk)(chk.pid, "quick", 0)
+        check_exclusive(sub, inp, orig, schema, ci, t)
+        for f in sub.oracle_failures[:1]:
+            chk.fail("original-of-copy-" + f["kind"], dict(inp, original_copied_at_step=step), f["detail"])
+
+
 def run(chk, drv):
     quick = chk.tier == "quick"
     rng = chk.rng
     chk.extra["rule"] = ("random schemas with oneof groups (members of every kind); histories of length ≤ 12 (thorough ≤ 40) over construct (≤ 1 member per group), setattr "
                          "(incl. default values), getattr, parse of bytes with 0..n members in any order, instance from_dict, copy, deepcopy, pickle, observers; after EVERY operation "
-                         "the presence-level observation and bytes are compared with the model and the exclusivity oracle runs. non-trivial = history touches a oneof member; distinct by (schema, history)")
+                         "the presence-level observation and bytes are compared with the model and the exclusivity oracle runs — on the current object AND on every object a copy was taken from earlier in the history. non-trivial = history touches a oneof member; distinct by (schema, history)")
     nh = 800 if quick else 6000
     maxlen = 12 if quick else 40
     for hi in range(nh):
@@ -215,6 +227,7 @@ def run(chk, drv):
                 chk.count("ctor_multi_member")
         touched = any(schema[ci].fields[i].group is not None for i in init[2])
         impl_obs, terms = [], []
+        retired = []   # originals of copy / deepcopy / pickle: they must keep THEIR selection whatever happens to the copy
         inp = {"schema": [[f.line() for f in mm.fields] for mm in schema], "cls": ci, "init": bpgen.term(init), "ops": []}
         for op in ops:
             if op[0] == "fd":
@@ -231,6 +244,7 @@ def run(chk, drv):
                 touched = touched or op[0] == "fd" or schema[ci].fields[op[1]].group is not None
             terms.append(op_term(op))
             inp["ops"] = list(terms)
+            before, sel_before = m, dict(trk.sel)
             try:
                 m, raised = apply_op(m, op, schema, ci, classes, trk)
             except Exception as e:
@@ -238,7 +252,10 @@ def run(chk, drv):
                 terms.pop()
                 break
             chk.count("op_" + op[0])
+            if op[0] in ("copy", "deepcopy", "pickle") and m is not before:
+                retired.append((before, sel_before, len(terms) - 1))
             check_exclusive(chk, inp, m, schema, ci, trk)
+            check_retired(chk, inp, retired, schema, ci)
             if raised:
                 impl_obs.append("ERR")
             else:
@@ -289,6 +306,7 @@ def replay(chk, rp):
         if f.group is not None:
             trk.sel[f.group] = i
     c = type(chk)(chk.pid, "quick", 0)
+    retired = []
     for t in inp["ops"]:
         toks = t.split()
         if toks[0] == "set":
@@ -309,6 +327,7 @@ def replay(chk, rp):
             op = ("fd_raw", kw)
         else:
             op = (toks[0],)
+        before, sel_before = m, dict(trk.sel)
         try:
             if op[0] == "fd_raw":
                 for i, v in op[1]:
@@ -317,5 +336,8 @@ def replay(chk, rp):
                 m, _ = apply_op(m, op, schema, ci, classes, trk)
         except Exception:
             return True
+        if op[0] in ("copy", "deepcopy", "pickle") and m is not before:
+            retired.append((before, sel_before, 0))
         check_exclusive(c, inp, m, schema, ci, trk)
+        check_retired(c, inp, retired, schema, ci)
     return bool(c.oracle_failures)
